@@ -20,6 +20,16 @@ TITLES = {
     "C16-r2": "macro-expansion diagnostics cite a position inside the expanded text",
     "C17-r2": "DS-relative `print mem : n` truncates the segment base to 16 bits",
     "C08-r1": "a jump that lands on itself silently ends the program",
+    "C01-r2": "word SBB computes ZF from the full-width difference instead of the 16-bit result (0 - FFFFh - 1)",
+    "C02-r2": "word SHR by more than 16 returns early and skips the SF/ZF/PF update",
+    "C04-r2": "the assembler drops an explicit `ds` override: `ds[bp]` is then addressed through SS",
+    "C05-r2": "XLAT sign-extends AL (wrong table entry for AL >= 80h)",
+    "C07-r2": "CMPS/SCAS clear the flags with a mask that includes DF: a repeated compare with DF=1 turns round",
+    "C08-r2": "the implied ret is omitted when the body ends in jmp: a label before `}` falls into the next procedure",
+    "C10-r2": "db/dw strings accept any character; the loader still requires ASCII and rejects the emitted line",
+    "C12-r2": "`dw [n]` computes its size as a 16-bit `2*n`: aborts (debug) or wraps the data counter for n >= 32768",
+    "C18-r2": "the read helper treats end of input (Ok(0)) like a failed read: AL / the count byte keep stale values",
+    "C20-r2": "a blank line at the prompt is treated like end of input and quits the emulator",
 }
 rows = []
 for sid in sorted(os.listdir(ROOT)):
